@@ -459,10 +459,21 @@ def builder(case):
 def run_case(case, ses):
     z3 = z3mod()
     name = case['name']
-    with quiet():
-        m = builder(case)()
-        fp = m.do_math()
-        fd = m.do_math(primal=False)
+    try:
+        with quiet():
+            m = builder(case)()
+            fp = m.do_math()
+            fd = m.do_math(primal=False)
+    except HarnessError:
+        raise
+    except Exception as e:
+        from ..drogen import MAY_RAISE
+        if (case['kind'] == 'dro' and case.get('member') in MAY_RAISE) or \
+                (case['kind'] == 'det' and case.get('member', '').split('-')[0].split(':')[-1] in ('sumpexp', 'sumplog')):
+            # members RSOME may refuse loudly
+            ses.stats.kinds['member-rejected-by-rsome'] = ses.stats.kinds.get('member-rejected-by-rsome', 0) + 1
+            return
+        raise
     P = CProg(fp, 'x')
     D = CProg(fd, 'y')
     ses.stats.programs += 1
